@@ -224,10 +224,7 @@ package kv
 //@   ensures [C13.listdir.complete] forall k string :: has(s.m, k) && inDir(filePath, s.m[k].Key) ==> exists i int :: 0 <= i && i < len(vs) && vs[i] == dirName(filePath, s.m[k].Key)
 //@   modifies nothing
 //@   loop 0 invariant fresh(m)
-//@   loop 0 invariant fresh(prefix)
 //@   loop 0 invariant fresh(vs) && len(vs) == 0
-//@   loop 0 invariant len(prefix) == nT(filePath)
-//@   loop 0 invariant forall j int :: 0 <= j && j < len(prefix) ==> prefix[j] == tm(filePath, j)
 //@   loop 0 invariant forall n string :: has(m, n) ==> exists k string :: has(s.m, k) && inDir(filePath, s.m[k].Key) && n == dirName(filePath, s.m[k].Key)
 //@   loop 0 invariant forall k string :: rangeSeen(0, k) ==> has(s.m, k)
 //@   loop 0 invariant forall k string :: rangeSeen(0, k) && inDir(filePath, s.m[k].Key) ==> has(m, dirName(filePath, s.m[k].Key))
@@ -243,10 +240,7 @@ package kv
 //@   ensures [C13.list.complete] forall k string :: has(s.m, k) && inList(filePath, s.m[k].Key) ==> exists i int :: 0 <= i && i < len(vs) && ((s.m[k].Key == filePath && vs[i] == baseP(filePath)) || (s.m[k].Key != filePath && vs[i] == restName(filePath, s.m[k].Key)))
 //@   modifies nothing
 //@   loop 0 invariant fresh(m)
-//@   loop 0 invariant fresh(prefix)
 //@   loop 0 invariant fresh(vs) && len(vs) == 0
-//@   loop 0 invariant len(prefix) == nT(filePath)
-//@   loop 0 invariant forall j int :: 0 <= j && j < len(prefix) ==> prefix[j] == tm(filePath, j)
 //@   loop 0 invariant forall n string :: has(m, n) ==> exists k string :: has(s.m, k) && inList(filePath, s.m[k].Key) && ((s.m[k].Key == filePath && n == baseP(filePath)) || (s.m[k].Key != filePath && n == restName(filePath, s.m[k].Key)))
 //@   loop 0 invariant forall k string :: rangeSeen(0, k) ==> has(s.m, k)
 //@   loop 0 invariant forall k string :: rangeSeen(0, k) && inList(filePath, s.m[k].Key) ==> (s.m[k].Key == filePath && has(m, baseP(filePath))) || (s.m[k].Key != filePath && has(m, restName(filePath, s.m[k].Key)))
@@ -489,3 +483,23 @@ package kv
 //@   ensures [C13.list.prefix] result == (len(test) >= len(prefix) && forall j int :: 0 <= j && j < len(prefix) ==> prefix[j] == test[j])
 //@   modifies nothing
 //@   loop 0 invariant 0 <= i && i <= len(prefix) && len(test) >= len(prefix) && forall j int :: 0 <= j && j < i ==> prefix[j] == test[j]
+
+// ---------------------------------------------------------------- starting the store's shard (C13)
+
+// Start: the metadata shard is started as THIS store's shard with the caller's replica id, on a state
+// machine built by NewLFSM (verified: a new LFSM over a new, empty map store), joining with the
+// configured initial members exactly when the node has no data of that shard yet.
+//@ func dragonboat.(*NodeHost).StartConcurrentReplica
+//@   assumed
+//@   params nh, members, join, create, rc
+//@   modifies nothing
+//@ func kvRaftConfig
+//@   ensures [C13.start.config] result.ReplicaID == nodeID && result.ShardID == clusterID && result.ElectionRTT == cfg.ElectionRTT && result.HeartbeatRTT == cfg.HeartbeatRTT && result.SnapshotEntries == cfg.SnapshotEntries && result.CompactionOverhead == cfg.CompactionOverhead && result.MaxInMemLogSize == cfg.MaxInMemLogSize && result.CheckQuorum && result.OrderedConfigChange
+//@   modifies nothing
+//@ func NewLFSM$1
+//@   ensures [C13.start.fsm] typeIs(result, *LFSM) && asType(result, *LFSM) != nil && fresh(asType(result, *LFSM)) && asType(result, *LFSM).store != nil && fresh(asType(result, *LFSM).store) && forall k string :: !has(asType(result, *LFSM).store.m, k)
+//@   modifies nothing
+//@ func (*RaftStore).Start
+//@   requires r != nil && r.NodeHost != nil
+//@   before dragonboat.(*NodeHost).StartConcurrentReplica assert [C13.start.shard] rc.ShardID == r.ClusterID && rc.ReplicaID == cfg.NodeID && !join && isFunc(create, "kv.NewLFSM$1")
+//@   modifies nothing
